@@ -24,8 +24,29 @@ FORBIDDEN = re.compile(r"\bsorry\b|\badmit\b|^\s*axiom\s|native_decide|bv_decide
 sys.path.insert(0, str(VERIF / "translator"))
 
 
-# properties whose hand model is additionally tied to the source by Props/Tie.lean (generated ReaderArith)
-TIE_PROPS = {"C01", "C06", "C07", "C11", "C18"}
+# Source-tie modules per property (besides Props/<pid>.lean).  `Tie.*`: arithmetic regenerated from the source
+# proved equal to the hand model, and the obligation that the fragments the property depends on were recognised by
+# the translator on this run.  `Kernels.*`: closed-form specification of a translated loop kernel + its link to the
+# hand model.  Each module only concerns the named fragment, so a source change breaks the obligations of the
+# properties that depend on that fragment and of no other.
+EXTRA_MODULES = {
+    "C01": ["Tie.Plan"],
+    "C03": ["Tie.Bits"],
+    "C04": ["Tie.Bits", "Tie.SigprocTables"],
+    "C05": ["Tie.SigprocTables"],
+    "C06": ["Tie.Plan", "Tie.Collapse", "Tie.Dedisperse", "Kernels.ExtractTim", "Kernels.ExtractBpass", "Kernels.Dedisperse"],
+    "C07": ["Tie.Plan", "Tie.Subband", "Kernels.InvertFreq", "Kernels.MaskChannels", "Kernels.Subband",
+            "Kernels.RemoveZerodm", "Kernels.Downsample2d"],
+    "C08": ["Tie.HeaderUpdates"],
+    "C09": ["Tie.Dedisperse", "Tie.Subband", "Kernels.Dedisperse", "Kernels.Subband"],
+    "C10": ["Tie.Moments"],
+    "C11": ["Tie.Plan", "Tie.Fold"],
+    "C14": ["Kernels.Downsample1d", "Kernels.Downsample2d"],
+    "C16": ["Kernels.MaskChannels"],
+    "C18": ["Tie.Plan", "Tie.Pfits"],
+    "C19": ["Tie.Prange"],
+    "C20": ["Tie.WriterOps", "Tie.Bits", "Tie.SigprocTables"],
+}
 
 
 class InfraError(Exception):
@@ -132,10 +153,10 @@ def lean_pipeline(pid: str, thorough: bool = False) -> dict:
         if not props.exists():
             raise InfraError(f"{props} missing")
         ths = theorems_in(props)
-        extra_targets = []
-        if pid in TIE_PROPS:
-            ths = ths + theorems_in(LEAN / "SppModel" / "Props" / "Tie.lean")
-            extra_targets = ["SppModel.Props.Tie"]
+        extra = EXTRA_MODULES.get(pid, [])
+        for m in extra:
+            ths = ths + theorems_in(LEAN / "SppModel" / "Props" / (m.replace(".", "/") + ".lean"))
+        extra_targets = [f"SppModel.Props.{m}" for m in extra]
         # generated obligations the property depends on (none failing = 0 extra)
         res["obligations"] = len(ths)
         target = f"SppModel.Props.{pid}"
@@ -143,7 +164,7 @@ def lean_pipeline(pid: str, thorough: bool = False) -> dict:
             # rebuild the property module and everything generated from scratch
             for sub in ("Props", "Generated"):
                 for ext in ("olean", "ilean", "trace", "hash", "c", "setup.json"):
-                    for f in (LEAN / ".lake/build").rglob(f"{sub}/*.{ext}"):
+                    for f in (LEAN / ".lake/build").rglob(f"{sub}/**/*.{ext}"):
                         f.unlink(missing_ok=True)
         r = run(["lake", "build", target, "SppModel"] + extra_targets, cwd=LEAN, timeout=3000)
         res["build_rc"] = r.returncode
@@ -164,7 +185,8 @@ def lean_pipeline(pid: str, thorough: bool = False) -> dict:
         WORK.mkdir(exist_ok=True)
         audit = WORK / f"Audit_{pid}.lean"
         names = [n for n, _, priv in ths if not priv]
-        audit.write_text(f"import SppModel.Props.{pid}\n" + ("import SppModel.Props.Tie\n" if pid in TIE_PROPS else "") + "".join(f"#print axioms {n}\n" for n in names))
+        audit.write_text(f"import SppModel.Props.{pid}\n" + "".join(f"import {t}\n" for t in extra_targets)
+                         + "".join(f"#print axioms {n}\n" for n in names))
         r = run(["lake", "env", "lean", str(audit)], cwd=LEAN, timeout=1200)
         out = r.stdout + r.stderr
         if r.returncode != 0:
@@ -188,7 +210,7 @@ def lean_pipeline(pid: str, thorough: bool = False) -> dict:
         if hits:
             res["failures"].append("forbidden tokens: " + "; ".join(hits[:5]))
         if thorough and not res["failures"]:
-            r = run(["lake", "env", "leanchecker", target], cwd=LEAN, timeout=3000)
+            r = run(["lake", "env", "leanchecker", target] + extra_targets, cwd=LEAN, timeout=3000)
             res["leanchecker_rc"] = r.returncode
             if r.returncode != 0:
                 res["failures"].append("leanchecker rejected: " + (r.stdout + r.stderr)[-300:].replace("\n", " | "))
